@@ -395,6 +395,9 @@ def to_worklist(ctx) -> None:
     selfn = f.params[0]
     # the map source column -> [(target column, volumes)] collects every serial instruction
     maps = [n for n in fv.cfg.nodes if n.kind == "stmt" and isinstance(n.ast, ast.Assign) and isinstance(n.ast.targets[0], ast.Name) and "serial" in n.ast.targets[0].id]
+    if len(maps) > 1:
+        # the map may be created under one name and handed on under another (helper result): keep the creating definition
+        maps = [n for n in maps if not isinstance(n.ast.value, ast.Name)] or maps
     if len(maps) != 1:
         ctx.rep.inconclusive(rule, f"{f.qualname}/serial-map", f"serial-dilution map not found ({len(maps)})")
         return
@@ -470,7 +473,8 @@ def to_worklist(ctx) -> None:
         elif is_name(s_lab, "dilution_plate") and is_name(d_lab, "dilution_plate"):
             loops = [h for h in fv.cfg.enclosing_loops(cs.node) if fv.cfg.nodes[h].kind == "for" and h != main.id]
             inner = fv.cfg.nodes[loops[-1]] if loops else None
-            if inner is not None and isinstance(inner.ast.iter, (ast.Subscript, ast.Call)) and mname in show(inner.ast.iter):
+            if inner is not None and isinstance(inner.ast.iter, (ast.Subscript, ast.Call)) and (mname in show(inner.ast.iter) or mname in show(fv.res.resolve(inner.ast.iter, inner.id)) or any(
+                    isinstance(x, ast.Name) and is_name(fv.alias_root(x, inner.id), mname) for x in ast.walk(inner.ast.iter))):
                 seen.add("serial")
                 tn = [getattr(e, "id", None) for e in inner.ast.target.elts] if isinstance(inner.ast.target, ast.Tuple) else []
                 it = inner.ast.iter
